@@ -209,6 +209,13 @@ def run(tier, replay=None):
     n_dh, lead = dh_groups(v, tier)
     n_nonce = nonce_lengths(v, kdf)
     n_lz, steered = leading_zero_sessions(v, kdf, tier)
+    # interleavings: crossing CREATE_CHILD_SA exchanges with PFS (each end answers the other's request while its own is outstanding) and the IKE_SA rekey
+    # with a retry - every kernel record and every IKE key ring of the replayed Ike.tla behaviours is compared with the plan evaluation
+    from checks import ikeprop
+    ike_cov = dict(ikeprop.run(v, ['estab_pfs_same'] if tier == 'quick' else ['estab_pfs_same', 'estab_pfs', 'estab_rekey_ke'], limit=900 if tier == 'quick' else None,
+                               owns=lambda mm: mm['component'] in ('keyslot', 'ikekeys')))
+    for k in list(ike_cov):
+        v.coverage.pop(k, None)
     m = v.coverage['matrix']
     v.coverage.update({
         'evaluations': evals + n_pp + n_dh + n_nonce + n_lz, 'distinct_nontrivial': distinct + n_pp,
@@ -217,7 +224,7 @@ def run(tier, replay=None):
                 'prf+ for output lengths 1..8*hash+1; DH: published primes/curves, fixed-width public values, shared secrets vs Python integers, incl. peer values forcing a leading zero octet, and whole sessions whose responder keys are redrawn until g^ir starts with a zero octet; '
                 'distinct = distinct suites/configurations + distinct prf+ (prf, length) cases',
         'exhaustive': tier == 'thorough',
-        'prfplus_cases': n_pp, 'dh_pairs': n_dh, 'dh_secrets_with_leading_zero_octet': lead, 'nonce_length_sessions': n_nonce, 'sessions_steered_to_leading_zero_secrets': n_lz, 'steered_dh_exchanges': steered,
+        'prfplus_cases': n_pp, 'dh_pairs': n_dh, 'dh_secrets_with_leading_zero_octet': lead, 'nonce_length_sessions': n_nonce, 'ike_tla_interleavings': {k: ike_cov[k] for k in ('states', 'transitions', 'traces_validated_against_impl', 'steps_compared')}, 'sessions_steered_to_leading_zero_secrets': n_lz, 'steered_dh_exchanges': steered,
         'samples': m['samples'][:1] + [{'plan_ike_example': kdf.plans['ike'][0]}]})
     v.assumptions += ['SHA-1/SHA-2 (hashlib), AES (OpenSSL) and the DH private scalars read off the cryptography key objects are trusted',
                       'TLC fixes structure, order, counters and slice boundaries (32-bit integers); numeric evaluation by the harness']
